@@ -134,8 +134,11 @@ static void on_terminate() {
 }
 
 static void print_violation(char const* tag, u64 index, Plan const& plan, RunResult const& r, char const* backend) {
-	std::printf("%s {\"index\":%llu,\"seed\":%llu,\"property\":\"%s\",\"signature\":\"%s\",\"inv\":\"%s\",\"variant\":\"%s\",\"fault\":\"%s\",\"step\":%d,\"detail\":\"%s\",\"hash\":\"%016llx\",\"backend\":\"%s\",\"binary\":\"%s\",\"plan\":\"%s\"}\n",
-	    tag, (unsigned long long)index, (unsigned long long)plan.seed, r.property.c_str(), jesc(r.signature()).c_str(), r.inv.c_str(), jesc(r.variant).c_str(), fault_name(r.fault_kind), r.step, jesc(r.detail).c_str(),
+	std::string extra = "[";
+	for(std::size_t q = 0; q < r.extra.size(); ++q) extra += std::string(q ? "," : "") + "{\"property\":\"" + r.extra[q].property + "\",\"signature\":\"" + jesc(r.signature_of(r.extra[q])) + "\",\"detail\":\"" + jesc(r.extra[q].detail) + "\"}";
+	extra += "]";
+	std::printf("%s {\"index\":%llu,\"seed\":%llu,\"extra\":%s,\"property\":\"%s\",\"signature\":\"%s\",\"inv\":\"%s\",\"variant\":\"%s\",\"fault\":\"%s\",\"step\":%d,\"detail\":\"%s\",\"hash\":\"%016llx\",\"backend\":\"%s\",\"binary\":\"%s\",\"plan\":\"%s\"}\n",
+	    tag, (unsigned long long)index, (unsigned long long)plan.seed, extra.c_str(), r.property.c_str(), jesc(r.signature()).c_str(), r.inv.c_str(), jesc(r.variant).c_str(), fault_name(r.fault_kind), r.step, jesc(r.detail).c_str(),
 	    (unsigned long long)r.hash_full, backend, g_binary_name, jesc(plan_to_string(plan)).c_str());
 	std::fflush(stdout);
 }
